@@ -86,10 +86,19 @@ def check(pid, tier, seed, machine, mc_cfg, gen_cfg, trace_module, adapter, sig,
     actions = t_items + w_items + list(extra_items or [])
     if post_actions:
         actions = [post_actions(a) for a in actions]
-    items = [{"id": i, "actions": a} for i, a in enumerate(actions)]
+    if callable(variants):
+        # variants(actions, index) -> list of variant dicts: the behaviour is replayed once per variant
+        items = []
+        for n, a in enumerate(actions):
+            for v in variants(a, n):
+                items.append(dict({"id": len(items), "actions": a}, **v))
+        variants = None
+    else:
+        items = [{"id": i, "actions": a} for i, a in enumerate(actions)]
     if variants:
         for it in items:
             it.update(variants[it["id"] % len(variants)])
+    by_item = {it["id"]: it for it in items}
     # replay, monitor and evidence in batches: the traces of a thorough tour do not fit in memory together
     BATCH = 20000
     bad_all, judged, canary, n_traces, steps = [], 0, None, 0, 0
@@ -109,7 +118,7 @@ def check(pid, tier, seed, machine, mc_cfg, gen_cfg, trace_module, adapter, sig,
             run.violation(sig(t, step, clause), "%s fails at step %d of trace %s: %s" % (
                 clause, step, tid, json.dumps(t["steps"][step - 1]["a"]) if step else "initial state"),
                 {"adapter": adapter, "fn": adapter_fn, "id": t["id"], "actions": [s["a"] for s in t["steps"][:max(step, 1)]],
-                 "variant": (variants[t["id"] % len(variants)] if variants else {}), "failing_step": step, "clause": clause})
+                 "variant": {k: v for k, v in by_item.get(t["id"], {}).items() if k not in ("id", "actions")}, "failing_step": step, "clause": clause})
         # 5 canary candidate
         if canary is None:
             rejected = {b[0] for b in bad}
